@@ -759,7 +759,8 @@ class AsyncFIXConnection:
                 self._max_seq_num_resend = 0
                 await self._state_set(ConnectionState.ACTIVE)
 
-        self._message_last_time = time.time()
+        if self._connection_state > ConnectionState.DISCONNECTED_BROKEN_CONN:
+            self._message_last_time = time.time()
 
         self._journaler.persist_msg(raw_msg, self._session, MessageDirection.INBOUND)
 
